@@ -397,3 +397,22 @@ CHECKS["C15"] = dict(
                "in the design-phase calibration) from the weakest calibrated mutant (0.048).",
     assumptions=["foci separated by more than 1e-6 (the statement requires > 1e-9)"],
 )
+
+CHECKS["C16"] = dict(
+    src="harness/C16_constrained.cpp",
+    cases=dict(quick=2500, thorough=40000),
+    rule="Case = manifold {sphere S^(n-1) in R^3..R^5, torus in R^3, hyperplane, sphere cut by a plane (codimension 2)} with analytic (67%) or the "
+         "numeric default Jacobian x space {Projected, Atlas, TangentBundle} x tolerance 1e-7..1e-3 x delta 0.02..0.3 x lambda 1.2..5 x on-manifold pair "
+         "(near: within 2 delta; independent; antipodal) built from the harness's own parameterisation x optional obstacle cap x seed. Oracle: |F(x)| <= "
+         "tolerance (harness evaluates F itself) for 6 uniform / near / Gaussian sampler outputs, 4 interpolate outputs (t in {0, 1, 0.5, uniform}) and - "
+         "Projected / Atlas only - every state of a successful discreteGeodesic, whose consecutive states are <= lambda*delta apart and whose last state "
+         "is within delta of the target; in 39% of the cases RRT / RRTConnect / PRM plans on top and every vertex of a returned path must satisfy the "
+         "constraint and the path must start at the start. Non-trivial = pair farther apart than 5 delta, codimension 2, or a planner path with >= 3 "
+         "vertices. Distinct = consumed byte prefix.",
+    technique="property-based testing of constrained state spaces with a harness-evaluated constraint residual, fork per case",
+    level_text="Generated manifolds, parameters and on-manifold pairs; every state the constrained spaces hand out is re-checked against "
+               "the constraint function evaluated by the harness. Exploration-level.",
+    level_note="Trusted: the harness's manifold parameterisations and residual evaluation. Step / reach clauses are applied to the "
+               "projection- and atlas-based spaces only, as the statement says.",
+    assumptions=["an ompl::Exception from sampling / interpolation / anchoring is a clean rejection (counted)"],
+)
